@@ -20,7 +20,7 @@ let rec pos_bits (p : positive) : bool list =
   (* LSB first *)
   match p with XH -> [ true ] | XO q -> false :: pos_bits q | XI q -> true :: pos_bits q
 
-let dec_of_bits (bits_lsb_first : bool list) : string =
+let dec_of_bits (bits_lsb_first : bool list) : Stdlib.String.t =
   (* digits little endian in base 10^9 *)
   let base = 1_000_000_000 in
   let digits = ref [| 0 |] in
@@ -44,24 +44,24 @@ let dec_of_bits (bits_lsb_first : bool list) : string =
   done;
   Buffer.contents buf
 
-let string_of_n (x : n) : string = match x with N0 -> "0" | Npos p -> dec_of_bits (pos_bits p)
+let string_of_n (x : n) : Stdlib.String.t = match x with N0 -> "0" | Npos p -> dec_of_bits (pos_bits p)
 
-let string_of_z (x : z) : string =
+let string_of_z (x : z) : Stdlib.String.t =
   match x with Z0 -> "0" | Zpos p -> dec_of_bits (pos_bits p) | Zneg p -> "-" ^ dec_of_bits (pos_bits p)
 
 (* parse a decimal string into N using the extracted arithmetic *)
-let n_of_string (s : string) : n =
+let n_of_string (s : Stdlib.String.t) : n =
   let ten = n_of_int 10 in
   let acc = ref N0 in
-  String.iter
+  Stdlib.String.iter
     (fun c ->
       if c >= '0' && c <= '9' then
         acc := N.add (N.mul !acc ten) (n_of_int (Char.code c - 48)))
     s;
   !acc
 
-let z_of_string (s : string) : z =
-  if String.length s > 0 && s.[0] = '-' then Z.opp (Z.of_N (n_of_string s)) else Z.of_N (n_of_string s)
+let z_of_string (s : Stdlib.String.t) : z =
+  if Stdlib.String.length s > 0 && s.[0] = '-' then Z.opp (Z.of_N (n_of_string s)) else Z.of_N (n_of_string s)
 
 let hexval c =
   match c with
@@ -70,13 +70,13 @@ let hexval c =
   | 'A' .. 'F' -> Char.code c - 55
   | _ -> failwith "bad hex"
 
-let bytes_of_hex (s : string) : n list =
+let bytes_of_hex (s : Stdlib.String.t) : n list =
   if s = "-" then []
   else
-    let l = String.length s / 2 in
+    let l = Stdlib.String.length s / 2 in
     List.init l (fun i -> n_of_int ((hexval s.[2 * i] * 16) + hexval s.[(2 * i) + 1]))
 
-let hex_of_bytes (l : n list) : string =
+let hex_of_bytes (l : n list) : Stdlib.String.t =
   if l = [] then "-"
   else
     let b = Buffer.create (2 * List.length l) in
